@@ -20,7 +20,7 @@ RULE = ('(a) every raising call of random building histories on both topology fl
         'descriptor, model hash); non-trivial when the model was non-empty')
 REQUIRED = ['target:derived-id-collision', 'raising-calls', 'raising-calls:history', 'raising-calls:targeted', 'snapshots-compared', 'target:dup-name',
             'target:dup-id', 'target:bad-kw-position', 'target:bad-interface-position', 'target:facility-bad-tuple-position',
-            'target:unknown-model', 'target:subinterface-vlan', 'target:link-stale-end', 'target:component-if-id-collision', 'target:stale-service', 'retry:raised-again']
+            'target:unknown-model', 'target:subinterface-vlan', 'target:link-stale-end', 'target:component-if-id-collision', 'target:stale-service', 'retry:raised-again', 'target:node-with-services-position', 'target:derived-name-collision']
 ASSUMPTIONS = ['only argument rejections are injected (the statement is about rejected arguments); exceptions raised at arbitrary '
                'internal lines would demand a transaction mechanism the library does not promise',
                'the handle object the call was made on may be left changed (e.g. rename sets handle.name before validating); only '
@@ -144,6 +144,16 @@ def targeted_ops(rng, topo, flavour):
     for pos in range(k + 1):
         out.append(('bad-kw-position', {'op': 'add_node', 'name': g.fresh('n'), 'node_id': nid('n'), 'site': site,
                                         'ntype': rng.choice(['VM', 'Server', 'Switch']), 'kw': kw_at(pos, k)}))
+    # --- add_node with the services it is created with (ns_info): the j-th service is refused (its id is in use)
+    for j in range(3):
+        svcs = [[g.fresh('ns'), 'OVS', g.fresh('ns-id')] for _ in range(3)]
+        svcs[j][2] = rng.choice(any_ids) if j or rng.random() < 0.5 else svcs[(j + 1) % 3][2]
+        out.append(('node-with-services-position', {'op': 'add_node', 'name': g.fresh('n'), 'node_id': nid('n') or g.fresh('n-id'), 'site': site,
+                                                    'ntype': 'VM', 'ns_info': svcs}))
+    # --- add_switch with extra keyword arguments (documented as passed on to the node)
+    for pos in range(2):
+        out.append(('bad-kw-position', {'op': 'add_switch', 'name': g.fresh('sw'), 'node_id': nid('sw') or g.fresh('sw-id'), 'site': site, 'nports': 2,
+                                        'kw': kw_at(pos, 1)}))
     # --- components
     if plain:
         n = rng.choice(plain)
@@ -254,6 +264,13 @@ def targeted_ops(rng, topo, flavour):
             out.append(('derived-name-collision', {'op': 'connect_interface', 'service': tm.name(rng.choice(top)), 'iface': t0[0],
                                                    'pre_ops': [{'op': 'add_link', 'name': lname, 'node_id': None, 'ltype': 'Patch',
                                                                 'interfaces': [l1[0], l2[0]]}]}))
+        # ... or the derived link name is longer than a name may be (the node's name is just short enough for its own parts)
+        if top:
+            ln = 'L' * 240 + g.fresh('n')[:4].ljust(4, 'x')
+            out.append(('derived-name-collision', {'op': 'connect_interface', 'service': tm.name(rng.choice(top)), 'iface': [ln, 'nic1-p1'],
+                                                   'pre_ops': [{'op': 'add_node', 'name': ln, 'node_id': None, 'site': site, 'ntype': 'VM'},
+                                                               {'op': 'add_component', 'node': ln, 'name': 'nic1', 'node_id': None,
+                                                                'model_type': 'SmartNIC_ConnectX_6'}]}))
     # --- sub-interfaces
     ded = [x for x in refs if tm.typ(x[1]) == 'DedicatedPort' and len(x[0]) == 2]
     if ded:
